@@ -334,6 +334,7 @@ func (r *Run) knownNil(path *Path, rfn *Func, x ast.Expr) (isNil, known bool) {
 func (r *Run) knownTruth(path *Path, rfn *Func, x ast.Expr) (val, known bool) {
 	info := rfn.Info()
 	x = ast.Unparen(x)
+	x0 := x
 	neg := false
 	for {
 		if u, ok := x.(*ast.UnaryExpr); ok && u.Op == token.NOT {
@@ -356,6 +357,19 @@ func (r *Run) knownTruth(path *Path, rfn *Func, x ast.Expr) (val, known bool) {
 				if t, ok := ev.RetTruth[k]; ok {
 					return t != neg, true
 				}
+			}
+			if ast.Unparen(res) == x0 {
+				if t, ok := ev.RetTruth[k]; ok {
+					return t, true // (the truth recorded for the result as written, negations included)
+				}
+			}
+		}
+	}
+	// !call / call whose outcome a guard inside the helper shows on this path (return !d.End.IsZero())
+	if call, isCall := x.(*ast.CallExpr); isCall {
+		for _, ev := range path.Events {
+			if ev.Kind == EvGuard && ev.Fn == rfn && ev.Cond != nil && ast.Unparen(ev.Cond) == ast.Expr(call) {
+				return ev.Val != neg, true
 			}
 		}
 	}
